@@ -1,6 +1,7 @@
 /- Line-protocol driver: one case per input line, one canonical output line per case. -/
 import OPModel.Drive.C19
 import OPModel.Drive.C06
+import OPModel.Drive.C01
 
 open OP
 
@@ -8,6 +9,7 @@ def handle (line : String) : String :=
   match tokens line with
   | "stream" :: args => Drive.stream Gen.isoOffset args
   | "coll" :: args => Drive.coll args
+  | "cascade" :: args => Drive.cascade args
   | "pinch" :: args => Drive.pinch args
   | "pincht" :: args => Drive.pincht args
   | _ => "bad-op"
